@@ -1,5 +1,6 @@
 import VrpModel.PathBased
 import VrpProofs.Props.C15
+import VrpProofs.Lemmas.Route
 
 /-!
 # C06 — Path-based route admission matches the VRPTW route definition
@@ -12,4 +13,448 @@ theorem short_route_rejected (g : Graph) (r : List Stop) (h : r.length < 2) :
     checkRoute g r = .ok ⟨false, 0, []⟩ := by
   unfold checkRoute; simp [h]
 
+
+/-! ## reference definition of a VRPTW route (index form) -/
+
+/-- follow the stops from `cur` at time `time` with load `load`: every arc must exist, early arrivals wait
+    until the window opens, no late arrival, load within `[0, cap]` after every stop (the depot's own demand
+    included at the end); returns the summed arc cost -/
+def follow (g : Graph) (cap : ℚ) : ℕ → List ℕ → ℚ → ℚ → ℚ → Option ℚ
+  | _, [], _, _, cost => some cost
+  | cur, j :: rest, time, load, cost =>
+    match g.arc? cur j with
+    | none => none
+    | some a =>
+      let t := maxR (time + a.time) (g.lo j)
+      if ltE (g.hi j) t then none
+      else
+        let l := load - g.demand j
+        if cap < l ∨ l < 0 then none else follow g cap j rest t l (cost + a.cost)
+
+/-- VRPTW route: at least two stops, starts and ends at the depot (node 0), no customer twice and the depot
+    only at the ends (all stops except the last are pairwise distinct), and the walk is time- and load-feasible -/
+def ValidRoute (g : Graph) (cap init : ℚ) (r : List ℕ) : Prop :=
+  2 ≤ r.length ∧ r.head? = some 0 ∧ r.getLast? = some 0 ∧ r.dropLast.Nodup ∧
+  (follow g cap 0 r.tail 0 init 0).isSome
+
+/-! ## helper lemmas -/
+
+theorem follow_cons (g : Graph) (cap : ℚ) (cur j : ℕ) (rest : List ℕ) (time load cost : ℚ) :
+    follow g cap cur (j :: rest) time load cost =
+      match checkArc g cap time load cur j with
+      | none => none
+      | some (t, l) => follow g cap j rest t l (cost + ((g.arc? cur j).map (·.cost)).getD 0) := by
+  rw [follow]
+  unfold checkArc
+  cases g.arc? cur j with
+  | none => rfl
+  | some a =>
+    simp only
+    split_ifs <;> simp
+
+/-- **the loop = `follow` + no revisit** on index stops -/
+theorem checkLoop_idx (g : Graph) (cap : ℚ) (rest : List ℕ) : ∀ cur time load cost vis,
+    ∃ rc, checkLoop g cap cur (rest.map Stop.idx) time load cost vis = .ok rc ∧
+      (rc.feas = true ↔ (∀ x ∈ (cur :: rest).dropLast, x ∉ vis) ∧ ((cur :: rest).dropLast).Nodup ∧
+          (follow g cap cur rest time load cost).isSome) ∧
+      (rc.feas = true → follow g cap cur rest time load cost = some rc.cost ∧
+          rc.visits = vis ++ (cur :: rest).dropLast) := by
+  induction rest with
+  | nil =>
+    intro cur time load cost vis
+    exact ⟨⟨true, cost, vis⟩, rfl, by simp [follow], by simp [follow]⟩
+  | cons j rest ih =>
+    intro cur time load cost vis
+    have hd : (cur :: j :: rest).dropLast = cur :: (j :: rest).dropLast := rfl
+    rw [hd, follow_cons, List.map_cons]
+    unfold checkLoop
+    by_cases hv : cur ∈ vis
+    · rw [if_pos hv]
+      refine ⟨_, rfl, ?_, by simp⟩
+      simp only [Bool.false_eq_true, false_iff, not_and]
+      intro hx
+      exact absurd hv (hx cur (List.mem_cons_self))
+    · rw [if_neg hv]
+      simp only [resolve_idx]
+      cases hca : checkArc g cap time load cur j with
+      | none =>
+        exact ⟨_, rfl, by simp, by simp⟩
+      | some p =>
+        obtain ⟨t, l⟩ := p
+        obtain ⟨rc, h1, h2, h3⟩ := ih j t l (cost + ((g.arc? cur j).map (·.cost)).getD 0) (vis ++ [cur])
+        refine ⟨rc, h1, ?_, ?_⟩
+        · rw [h2]
+          constructor
+          · rintro ⟨ha, hb, hc⟩
+            refine ⟨?_, List.nodup_cons.2
+              ⟨fun hm => ha cur hm (List.mem_append_right _ (List.mem_singleton_self _)), hb⟩, hc⟩
+            intro x hx
+            rcases List.mem_cons.1 hx with rfl | hx
+            · exact hv
+            · exact fun hm => ha x hx (List.mem_append_left _ hm)
+          · rintro ⟨ha, hb, hc⟩
+            obtain ⟨hb1, hb2⟩ := List.nodup_cons.1 hb
+            refine ⟨?_, hb2, hc⟩
+            intro x hx hm
+            rcases List.mem_append.1 hm with hm | hm
+            · exact ha x (List.mem_cons_of_mem _ hx) hm
+            · rw [List.mem_singleton] at hm
+              subst hm
+              exact hb1 hx
+        · intro hf
+          obtain ⟨h4, h5⟩ := h3 hf
+          exact ⟨h4, by rw [h5]; simp⟩
+
+/-- shape analysis of `checkRoute` on an index route -/
+theorem checkRoute_idx_core (g : Graph) (r : List ℕ) :
+    (checkRoute g (r.map Stop.idx) = .ok ⟨false, 0, []⟩ ∧
+        (r.length < 2 ∨ r.head? ≠ some 0 ∨ r.getLast? ≠ some 0)) ∨
+    (2 ≤ r.length ∧ r.head? = some 0 ∧ r.getLast? = some 0 ∧
+      checkRoute g (r.map Stop.idx) =
+        match g.cap, g.init with
+        | some cap, some init => checkLoop g cap 0 (r.tail.map Stop.idx) 0 init 0 []
+        | _, _ => .error .type) := by
+  match r with
+  | [] => exact Or.inl ⟨short_route_rejected g _ (by simp), Or.inl (by simp)⟩
+  | [a] => exact Or.inl ⟨short_route_rejected g _ (by simp), Or.inl (by simp)⟩
+  | a :: b :: r' =>
+    have hne : b :: r' ≠ [] := by simp
+    have hmm : ((b :: r').map Stop.idx).map (resolve g) = (b :: r').map Except.ok := by
+      rw [List.map_map]; rfl
+    have hl : (((b :: r').map Stop.idx).map (resolve g)).getLast? = some (.ok ((b :: r').getLast hne)) := by
+      rw [hmm, List.getLast?_map, List.getLast?_eq_some_getLast hne]; rfl
+    have hh : ∃ i, (((b :: r').map Stop.idx).map (resolve g)).head? = some (.ok i) := ⟨b, rfl⟩
+    have hlast : (a :: b :: r').getLast? = some ((b :: r').getLast hne) := by
+      rw [List.getLast?_cons_cons, List.getLast?_eq_some_getLast hne]
+    have key := checkRoute_eq g (.idx a) ((b :: r').map Stop.idx) a _ (resolve_idx g a) hh hl
+    rw [List.map_cons, key]
+    by_cases hc : a ≠ 0 ∨ (b :: r').getLast hne ≠ 0
+    · left
+      rw [if_pos hc]
+      refine ⟨rfl, Or.inr ?_⟩
+      rcases hc with hc | hc
+      · left; simpa using hc
+      · right; rw [hlast]; simpa using hc
+    · right
+      rw [if_neg hc]
+      have ha : a = 0 := by by_contra hx; exact hc (Or.inl hx)
+      have hb : (b :: r').getLast hne = 0 := by by_contra hx; exact hc (Or.inr hx)
+      subst ha
+      refine ⟨by simp, rfl, by rw [hlast, hb], rfl⟩
+
+/-- an accepted index route: vehicle data set, valid, cost and visits as expected -/
+theorem checkRoute_idx_ok (g : Graph) (r : List ℕ) (rc : RouteCheck)
+    (h : checkRoute g (r.map Stop.idx) = .ok rc) (hf : rc.feas = true) :
+    ∃ cap init, g.cap = some cap ∧ g.init = some init ∧ ValidRoute g cap init r ∧
+      follow g cap 0 r.tail 0 init 0 = some rc.cost ∧ rc.visits = r.dropLast := by
+  rcases checkRoute_idx_core g r with ⟨h1, _⟩ | ⟨h2, hh, hl, h1⟩
+  · rw [h1] at h; cases h; cases hf
+  · rw [h1] at h
+    cases hcap : g.cap with
+    | none => simp only [hcap] at h; cases h
+    | some cap =>
+      cases hinit : g.init with
+      | none => simp only [hcap, hinit] at h; cases h
+      | some init =>
+        simp only [hcap, hinit] at h
+        obtain ⟨rc', e1, e2, e3⟩ := checkLoop_idx g cap r.tail 0 0 init 0 []
+        rw [e1] at h
+        cases h
+        have hr : 0 :: r.tail = r := by
+          cases r with
+          | nil => simp at h2
+          | cons a t => simp at hh; simp [hh]
+        rw [hr] at e2 e3
+        obtain ⟨_, hn, hs⟩ := e2.1 hf
+        obtain ⟨hc, hv⟩ := e3 hf
+        exact ⟨cap, init, rfl, rfl, ⟨h2, hh, hl, hn, hs⟩, hc, by simpa using hv⟩
+
+/-- every stop of a walk that `follow` accepts is an existing node -/
+theorem follow_bound (g : Graph) (hg : C15.Inv g) (cap : ℚ) (rest : List ℕ) :
+    ∀ cur time load cost c, follow g cap cur rest time load cost = some c →
+      (∀ j ∈ rest, j < g.nodes.length) ∧ (rest ≠ [] → cur < g.nodes.length) := by
+  induction rest with
+  | nil => intro _ _ _ _ _ _; simp
+  | cons j rest ih =>
+    intro cur time load cost c h
+    rw [follow] at h
+    cases harc : g.arc? cur j with
+    | none => simp only [harc] at h; cases h
+    | some a =>
+      simp only [harc] at h
+      have hkey : ∃ e ∈ g.arcs, e.1 = (cur, j) := by
+        unfold Graph.arc? dictGet at harc
+        cases hfind : g.arcs.find? (fun e => e.1 = (cur, j)) with
+        | none => rw [hfind] at harc; cases harc
+        | some e =>
+          exact ⟨e, List.mem_of_find?_eq_some hfind, by simpa using List.find?_some hfind⟩
+      obtain ⟨e, he, hek⟩ := hkey
+      obtain ⟨ni, nj, h1, h2, _⟩ := hg.filed e he
+      rw [hek] at h1 h2
+      have hcur : cur < g.nodes.length := by
+        by_contra hx
+        rw [List.getElem?_eq_none (by omega)] at h1; cases h1
+      have hj : j < g.nodes.length := by
+        by_contra hx
+        rw [List.getElem?_eq_none (by omega)] at h2; cases h2
+      split_ifs at h with hA hB
+      obtain ⟨ih1, _⟩ := ih _ _ _ _ _ h
+      refine ⟨?_, fun _ => hcur⟩
+      intro x hx
+      rcases List.mem_cons.1 hx with rfl | hx
+      · exact hj
+      · exact ih1 x hx
+
+/-! ## statements -/
+
+/-- **admission = route definition** for routes given by indices -/
+theorem checkRoute_idx_iff_valid (g : Graph) (cap init : ℚ) (hc : g.cap = some cap) (hi : g.init = some init)
+    (r : List ℕ) :
+    ∃ rc, checkRoute g (r.map Stop.idx) = .ok rc ∧ (rc.feas = true ↔ ValidRoute g cap init r) := by
+  rcases checkRoute_idx_core g r with ⟨h1, hbad⟩ | ⟨h2, hh, hl, h1⟩
+  · refine ⟨_, h1, ?_⟩
+    simp only [Bool.false_eq_true, false_iff]
+    rintro ⟨v1, v2, v3, _⟩
+    rcases hbad with hb | hb | hb
+    · omega
+    · exact hb v2
+    · exact hb v3
+  · simp only [hc, hi] at h1
+    obtain ⟨rc, e1, e2, _⟩ := checkLoop_idx g cap r.tail 0 0 init 0 []
+    have hr : 0 :: r.tail = r := by
+      cases r with
+      | nil => simp at h2
+      | cons a t => simp at hh; simp [hh]
+    rw [hr] at e2
+    refine ⟨rc, h1.trans e1, ?_⟩
+    rw [e2]
+    unfold ValidRoute
+    simp [h2, hh, hl]
+
+/-- an accepted route's cost is the sum of its arc costs and its visit set is all stops but the last -/
+theorem checkRoute_cost_visits (g : Graph) (cap init : ℚ) (hc : g.cap = some cap) (hi : g.init = some init)
+    (r : List ℕ) (rc : RouteCheck) (h : checkRoute g (r.map Stop.idx) = .ok rc) (hf : rc.feas = true) :
+    follow g cap 0 r.tail 0 init 0 = some rc.cost ∧ rc.visits = r.dropLast := by
+  obtain ⟨cap', init', h1, h2, _, h3, h4⟩ := checkRoute_idx_ok g r rc h hf
+  rw [hc] at h1; rw [hi] at h2
+  cases h1; cases h2
+  exact ⟨h3, h4⟩
+
+/-- names, indices or a mixture: when every name is known the verdict is that of the resolved index route -/
+theorem checkRoute_names (g : Graph) (stops : List Stop)
+    (hk : ∀ s ∈ stops, ∀ nm, s = Stop.name nm → nm ∈ g.names) :
+    checkRoute g stops = checkRoute g ((resolveAll g stops).map Stop.idx) ∧
+    (resolveAll g stops).length = stops.length :=
+  ⟨checkRoute_resolved g stops (allRes_of_known g stops hk), resolveAll_length (allRes_of_known g stops hk)⟩
+
+/-- a route containing an unknown name is never accepted (it raises, or is rejected before the name is looked at) -/
+theorem checkRoute_unknown_not_accepted (g : Graph) (stops : List Stop) (nm : String)
+    (hmem : Stop.name nm ∈ stops) (hun : nm ∉ g.names) (rc : RouteCheck)
+    (h : checkRoute g stops = .ok rc) : rc.feas = false := by
+  by_contra hf
+  have hf' : rc.feas = true := by simpa using hf
+  exact hun ((checkRoute_feas g stops rc h hf').1.known _ hmem nm rfl)
+
+/-- consistency of the stored pool -/
+structure PoolInv (P : PathInst) : Prop where
+  nodup : P.routes.Nodup
+  lenC : P.costs.length = P.routes.length
+  lenV : P.visited.length = P.routes.length
+  /-- `route_node_visited[k]` is exactly the set of stops of route `k` except the final depot (so: the depot
+      and the customers it visits), all of them existing nodes -/
+  visits : ∀ k (hk : k < P.routes.length), ∀ i, (i ∈ P.visited.getD k [] ↔ i ∈ (P.routes[k]).dropLast) ∧
+      (i ∈ P.routes[k] → i < P.g.nodes.length)
+  /-- (added clause, needed by `path_cover_matrix`) every stored route starts and ends at the depot; without it
+      a pool whose route ends at a customer `k` not visited before satisfies the other clauses, yet the
+      matrix entry `(k, route)` is 0 while `k ∈ route` -/
+  ends : ∀ r ∈ P.routes, r.head? = some 0 ∧ r.getLast? = some 0
+
+theorem poolInv_init (g : Graph) : PoolInv ({ g := g } : PathInst) :=
+  ⟨by simp, rfl, rfl, fun k hk => by simp at hk, by simp⟩
+
+/-- the facts about an accepted candidate -/
+theorem accepted_facts (g : Graph) (hg : C15.Inv g) (stops : List Stop) (rc : RouteCheck)
+    (h : checkRoute g stops = .ok rc) (hf : rc.feas = true) :
+    ∃ cap init, g.cap = some cap ∧ g.init = some init ∧ ValidRoute g cap init (resolveAll g stops) ∧
+      follow g cap 0 (resolveAll g stops).tail 0 init 0 = some rc.cost ∧
+      rc.visits = (resolveAll g stops).dropLast ∧ ∀ i ∈ resolveAll g stops, i < g.nodes.length := by
+  have hall := (checkRoute_feas g stops rc h hf).1
+  rw [checkRoute_resolved g stops hall] at h
+  obtain ⟨cap, init, h1, h2, hv, h3, h4⟩ := checkRoute_idx_ok g _ rc h hf
+  refine ⟨cap, init, h1, h2, hv, h3, h4, ?_⟩
+  obtain ⟨v1, v2, _, _, _⟩ := hv
+  obtain ⟨b1, b2⟩ := follow_bound g hg cap _ _ _ _ _ _ h3
+  generalize resolveAll g stops = r at *
+  match r, v1, v2 with
+  | a :: b :: t, _, v2 =>
+    simp at v2; subst v2
+    intro i hi
+    rcases List.mem_cons.1 hi with rfl | hi
+    · exact b2 (by simp)
+    · exact b1 i hi
+
+theorem addRoute_error (P : PathInst) (stops : List Stop) (e : Err) (h : checkRoute P.g stops = .error e) :
+    P.addRoute stops = (P, .error e) := by
+  unfold PathInst.addRoute; simp only [h]
+
+theorem addRoute_accept (P : PathInst) (stops : List Stop) (rc : RouteCheck) (h : checkRoute P.g stops = .ok rc)
+    (hc : rc.feas = true ∧ resolveAll P.g stops ∉ P.routes) :
+    P.addRoute stops =
+      ({ P with routes := P.routes ++ [resolveAll P.g stops], costs := P.costs ++ [rc.cost],
+                visited := P.visited ++ [PathInst.addRoute.sortNat rc.visits] }, .ok (true, true)) := by
+  unfold PathInst.addRoute; simp only [h]; rw [if_pos hc]
+
+theorem addRoute_reject (P : PathInst) (stops : List Stop) (rc : RouteCheck) (h : checkRoute P.g stops = .ok rc)
+    (hc : ¬ (rc.feas = true ∧ resolveAll P.g stops ∉ P.routes)) :
+    P.addRoute stops = (P, .ok (rc.feas, false)) := by
+  unfold PathInst.addRoute; simp only [h]; rw [if_neg hc]
+
+/-- `add_route` keeps the pool consistent, stores a route at most once, and reports `(feasible, added)` with
+    `added ↔ feasible ∧ not already stored`; a rejected or raising call leaves the pool unchanged -/
+theorem addRoute_inv (P : PathInst) (hg : C15.Inv P.g) (h : PoolInv P) (stops : List Stop) :
+    PoolInv (P.addRoute stops).1 ∧ (P.addRoute stops).1.g = P.g ∧
+    (∀ f a, (P.addRoute stops).2 = .ok (f, a) →
+        (a = true ↔ (f = true ∧ resolveAll P.g stops ∉ P.routes)) ∧
+        (a = false → (P.addRoute stops).1 = P) ∧
+        (a = true → (P.addRoute stops).1.routes = P.routes ++ [resolveAll P.g stops])) ∧
+    (∀ e, (P.addRoute stops).2 = .error e → (P.addRoute stops).1 = P) := by
+  cases hcr : checkRoute P.g stops with
+  | error e =>
+    rw [addRoute_error P stops e hcr]
+    exact ⟨h, rfl, fun f a hfa => by simp at hfa, fun _ _ => rfl⟩
+  | ok rc =>
+    by_cases hcond : rc.feas = true ∧ resolveAll P.g stops ∉ P.routes
+    · rw [addRoute_accept P stops rc hcr hcond]
+      obtain ⟨hf, hnew⟩ := hcond
+      obtain ⟨cap, init, _, _, hv, _, hvis, hbd⟩ := accepted_facts P.g hg stops rc hcr hf
+      refine ⟨?_, rfl, ?_, fun e he => by simp at he⟩
+      · refine ⟨?_, ?_, ?_, ?_, ?_⟩
+        · exact List.Nodup.append h.nodup (List.nodup_singleton _) (by simpa using hnew)
+        · simp [h.lenC]
+        · simp [h.lenV]
+        · intro k hk i
+          have hk0 : k < P.routes.length + 1 := by simpa using hk
+          by_cases hk' : k < P.routes.length
+          · have e1 : (P.visited ++ [PathInst.addRoute.sortNat rc.visits]).getD k [] = P.visited.getD k [] := by
+              simp only [List.getD_eq_getElem?_getD]
+              rw [List.getElem?_append_left (by rw [h.lenV]; exact hk')]
+            have e2 : (P.routes ++ [resolveAll P.g stops])[k]'(by simpa using hk0) = P.routes[k] :=
+              List.getElem_append_left hk'
+            show (i ∈ (P.visited ++ [PathInst.addRoute.sortNat rc.visits]).getD k [] ↔
+                i ∈ ((P.routes ++ [resolveAll P.g stops])[k]'(by simpa using hk0)).dropLast) ∧
+              (i ∈ (P.routes ++ [resolveAll P.g stops])[k]'(by simpa using hk0) → i < P.g.nodes.length)
+            rw [e1, e2]
+            exact h.visits k hk' i
+          · have hk2 : k = P.routes.length := by omega
+            subst hk2
+            have e1 : (P.visited ++ [PathInst.addRoute.sortNat rc.visits]).getD P.routes.length [] =
+                PathInst.addRoute.sortNat rc.visits := by
+              simp only [List.getD_eq_getElem?_getD]
+              rw [List.getElem?_append_right (by rw [h.lenV]), h.lenV]
+              simp
+            have e2 : (P.routes ++ [resolveAll P.g stops])[P.routes.length]'(by simp) =
+                resolveAll P.g stops := by simp
+            show (i ∈ (P.visited ++ [PathInst.addRoute.sortNat rc.visits]).getD P.routes.length [] ↔
+                i ∈ ((P.routes ++ [resolveAll P.g stops])[P.routes.length]'(by simp)).dropLast) ∧
+              (i ∈ (P.routes ++ [resolveAll P.g stops])[P.routes.length]'(by simp) → i < P.g.nodes.length)
+            rw [e1, e2, mem_sortNat, hvis]
+            exact ⟨Iff.rfl, hbd i⟩
+        · intro r hr
+          have hr' : r ∈ P.routes ++ [resolveAll P.g stops] := hr
+          simp only [List.mem_append, List.mem_singleton] at hr'
+          rcases hr' with hr' | rfl
+          · exact h.ends r hr'
+          · exact ⟨hv.2.1, hv.2.2.1⟩
+      · intro f a hfa
+        simp only [Except.ok.injEq, Prod.mk.injEq] at hfa
+        obtain ⟨rfl, rfl⟩ := hfa
+        simp [hnew]
+    · rw [addRoute_reject P stops rc hcr hcond]
+      refine ⟨h, rfl, ?_, fun e he => by simp at he⟩
+      intro f a hfa
+      simp only [Except.ok.injEq, Prod.mk.injEq] at hfa
+      obtain ⟨rfl, rfl⟩ := hfa
+      simp only [Bool.false_eq_true, false_iff, forall_true_left, false_imp_iff, and_true]
+      exact hcond
+
+/-- (supplement) a route that `add_route` stores is a valid VRPTW route of the current graph and the stored
+    cost is the sum of its arc costs -/
+theorem addRoute_added_valid (P : PathInst) (hg : C15.Inv P.g) (stops : List Stop) (f : Bool)
+    (h : (P.addRoute stops).2 = .ok (f, true)) :
+    ∃ cap init c, P.g.cap = some cap ∧ P.g.init = some init ∧ ValidRoute P.g cap init (resolveAll P.g stops) ∧
+      follow P.g cap 0 (resolveAll P.g stops).tail 0 init 0 = some c ∧
+      (P.addRoute stops).1.costs = P.costs ++ [c] := by
+  cases hcr : checkRoute P.g stops with
+  | error e => rw [addRoute_error P stops e hcr] at h; simp at h
+  | ok rc =>
+    by_cases hcond : rc.feas = true ∧ resolveAll P.g stops ∉ P.routes
+    · rw [addRoute_accept P stops rc hcr hcond]
+      obtain ⟨cap, init, h1, h2, hv, h3, _, _⟩ := accepted_facts P.g hg stops rc hcr hcond.1
+      exact ⟨cap, init, rc.cost, h1, h2, hv, h3, rfl⟩
+    · rw [addRoute_reject P stops rc hcr hcond] at h; simp at h
+
+/-- nodes appended later (as the feasibility heuristic does) keep the pool consistent -/
+theorem addNode_inv (P : PathInst) (h : PoolInv P) (nm : String) (d lo : ℚ) (hi : ERat) :
+    PoolInv ({ P with g := (addNodeStep P.g nm d lo hi).1 } : PathInst) := by
+  unfold addNodeStep
+  split_ifs with h1 h2
+  · exact h
+  · exact h
+  · refine ⟨h.nodup, h.lenC, h.lenV, ?_, h.ends⟩
+    intro k hk i
+    refine ⟨(h.visits k hk i).1, fun hi => ?_⟩
+    have := (h.visits k hk i).2 hi
+    simp only [List.length_append, List.length_singleton]
+    omega
+
+/-- **the constraint data are the exact-cover system over the stored routes** on the current node list:
+    entry (customer `k`, route `col`) is 1 iff the route visits `k`, every right-hand side is 1, no quadratic
+    constraint, and the objective coefficients are the stored costs -/
+theorem path_cover_matrix (P : PathInst) (h : PoolInv P) (col k : ℕ) (hcol : col < P.routes.length)
+    (hk1 : 1 ≤ k) (hk : k < P.g.nodes.length) :
+    P.data.Amat (k - 1) col = (if k ∈ P.routes[col] then 1 else 0) ∧
+    P.data.n = P.routes.length ∧ P.data.m = P.g.nodes.length - 1 ∧
+    (∀ r, r < P.data.m → P.data.bvec r = 1) ∧ P.data.R = [] ∧ P.data.c = P.costs ∧ P.data.Qobj = [] := by
+  have _ := hk
+  refine ⟨?_, h.lenC, rfl, ?_, rfl, rfl, rfl⟩
+  · have hA : P.data.A = ((List.range' 0 P.visited.length).zip P.visited).flatMap
+        (fun p : ℕ × List ℕ => coverCol p.1 p.2.eraseDups) := by
+      simp only [PathInst.data, List.range_eq_range']
+      rfl
+    have hAm : P.data.Amat (k - 1) col = cooEntry P.data.A (k - 1) col := rfl
+    rw [hAm, hA, cooEntry_cover]
+    have hk' : k - 1 + 1 = k := by omega
+    have hin : 0 ≤ col ∧ col < 0 + P.visited.length := by rw [h.lenV]; omega
+    rw [if_pos hin, hk', Nat.sub_zero]
+    have e1 := (h.visits col hcol k).1
+    have hends := (h.ends _ (List.getElem_mem hcol)).2
+    have e2 : k ∈ P.routes[col] ↔ k ∈ (P.routes[col]).dropLast := by
+      have := List.dropLast_append_getLast? 0 hends
+      constructor
+      · intro hm
+        rw [← this] at hm
+        simp only [List.mem_append, List.mem_singleton] at hm
+        rcases hm with hm | hm
+        · exact hm
+        · omega
+      · exact fun hm => List.mem_of_mem_dropLast hm
+    simp only [e1, e2]
+  · intro r hr
+    have hr' : r < P.g.nodes.length - 1 := hr
+    simp [MPData.bvec, PathInst.data, vecOf, hr']
+
+/-- `examples/small.py` -/
+def smallG : Graph :=
+  { nodes := [⟨"D", 0, 0, none⟩, ⟨"1", 1, 1, some 7⟩, ⟨"2", 2, 2, some 4⟩, ⟨"3", 2, 4, some 7⟩]
+    arcs := [((0,1), ⟨"D","1",1,1⟩), ((0,2), ⟨"D","2",2,2⟩), ((0,3), ⟨"D","3",2,2⟩), ((1,0), ⟨"1","D",1,1⟩),
+             ((1,2), ⟨"1","2",1,1⟩), ((1,3), ⟨"1","3",1,1⟩), ((2,0), ⟨"2","D",2,2⟩), ((2,1), ⟨"2","1",1,1⟩),
+             ((2,3), ⟨"2","3",1,1⟩), ((3,0), ⟨"3","D",2,2⟩), ((3,1), ⟨"3","1",1,1⟩)]
+    cap := some 6
+    init := some 6 }
+
+/-- non-vacuity: on `examples/small.py` the route D-1-2-3-D is valid with cost 5 and D-3-2-D is not -/
+example : follow smallG 6 0 [1, 2, 3, 0] 0 6 0 = some 5 ∧ follow smallG 6 0 [3, 2, 0] 0 6 0 = none := by
+  refine ⟨by decide +kernel, by decide +kernel⟩
+
 end Vrp.C06
+
